@@ -1,7 +1,241 @@
-(* C04 placeholder: theorems land with Proofs/WorldProofs.v *)
-From Coq Require Import ZArith List.
-From V Require Import Result World.
+(* C04 -- containment is a forest kept consistent from both ends: a node is in a parent's collection iff its parent
+   attribute names that parent; no node has two parents or appears twice; a move (from either end) removes the node
+   from its previous owner; .ir/.module/.section are the walks along the parent attributes; nodes not named by an
+   operation keep their state.
+   Model: Model/World.v (kids / npar, set_add, set_discard, blocks_update, the IR module list, do_setparent),
+   Model/WorldGuard.v (guard, reachable states).  Invariant: ForestDefs.Forest, part of WorldInv.InvAll.
+   Only property theorems here; proofs in Proofs/SetOpsProofs.v, Proofs/ModListProofs.v, Proofs/WorldInv.v,
+   Proofs/WorldProps.v. *)
+From Coq Require Import ZArith List Bool.
+From V Require Import Result LazyTree World WorldGuard ForestDefs InvDefs WorldInv WorldProps.
+From V Require SetOpsBase SetOpsProofs ModListProofs SymIxProofs.
 Import ListNotations.
-Theorem C04_new_detached : forall w n k u a s f nm p, par (step' w (ONew n k u a s f nm p)) n = None.
-Proof. intros. unfold step', step, par, getn. destruct k; cbn; unfold upd; rewrite Z.eqb_refl; reflexivity. Qed.
-Print Assumptions C04_new_detached.
+Open Scope Z_scope.
+
+(* ---------- the forest, in every reachable state ---------- *)
+
+Theorem C04_two_ended : forall w known, reachable_k w known -> forall p c, In c (kids w p) <-> par w c = Some p.
+Proof. intros w known R. exact (f_two_ended _ _ (reach_forest w known R)). Qed.
+
+Theorem C04_no_duplicates : forall w known, reachable_k w known -> forall p, NoDup (kids w p).
+Proof. intros w known R. exact (f_nodup _ _ (reach_forest w known R)). Qed.
+
+Theorem C04_single_parent : forall w known p q c, reachable_k w known -> In c (kids w p) -> In c (kids w q) -> p = q.
+Proof. intros w known p q c R. exact (single_parent w known p q c (reach_forest w known R)). Qed.
+
+(* the six relations: IR-module, module-section/symbol/proxy, section-interval, interval-block *)
+Theorem C04_kinds_layered : forall w known, reachable_k w known -> forall p c, par w c = Some p ->
+  has w c = true /\ has w p = true /\ parent_kind (kindof w c) = Some (kindof w p).
+Proof. intros w known R. exact (f_kind _ _ (reach_forest w known R)). Qed.
+
+Theorem C04_nodes_known : forall w known, reachable_k w known -> forall n, has w n = true <-> In n known.
+Proof. intros w known R. exact (f_known _ _ (reach_forest w known R)). Qed.
+
+Theorem C04_every_step : forall w known o, reachable_k w known -> op_okb w known o = true ->
+  reachable_k (step' w o) (known_after o known).
+Proof. exact reachable_k_step. Qed.
+
+(* ---------- a move removes the node from its previous owner ---------- *)
+
+(* from the collection side: parent.collection.add(c) *)
+Theorem C04_move_leaves_previous_owner : forall w known p fk c, reachable_k w known ->
+  op_okb w known (OSet p fk SAdd [[c]]) = true ->
+  exists w', step w (OSet p fk SAdd [[c]]) = Ok w' /\
+    par w' c = Some p /\ In c (kids w' p) /\
+    (forall x, In x (kids w' p) <-> In x (kids w p) \/ x = c) /\
+    (forall q, q <> p -> kids w' q = remove_id c (kids w q)) /\
+    (forall x, x <> c -> nodes w' x = nodes w x) /\
+    getn w' c = with_par (getn w c) (Some p).
+Proof. intros w known p fk c R. exact (op_add_effect w known p fk c (invall_reachable w known R)). Qed.
+
+(* from the node side: c.parent = p (all six relations; p = None detaches) *)
+Theorem C04_move_leaves_previous_owner_parent_attr : forall w known c p, reachable_k w known ->
+  op_okb w known (OSetParent c p) = true ->
+  exists w', step w (OSetParent c p) = Ok w' /\
+    par w' c = p /\
+    (forall q, p = Some q -> kids w' q = remove_id c (kids w q) ++ [c]) /\
+    (forall q, p <> Some q -> kids w' q = remove_id c (kids w q)) /\
+    (forall x, x <> c -> nodes w' x = nodes w x) /\
+    getn w' c = with_par (getn w c) p.
+Proof. intros w known c p R. exact (op_setparent_effect w known c p (invall_reachable w known R)). Qed.
+
+(* the module list: ir.modules.insert(i, v) / append(v) of a module owned elsewhere (or by this very IR) *)
+Theorem C04_move_leaves_previous_owner_modlist_insert : forall w known ir i v, reachable_k w known ->
+  op_okb w known (OModInsert ir i v) = true ->
+  let l := remove_id v (kids w ir) in
+  exists w', step w (OModInsert ir i v) = Ok w' /\
+    kids w' ir = insert_at (clamp_insert i (length l)) v l /\
+    (forall x, x <> ir -> kids w' x = remove_id v (kids w x)) /\
+    (forall x, nodes w' x = if x =? v then Some (with_par (getn w v) (Some ir)) else nodes w x) /\
+    par w' v = Some ir.
+Proof.
+  intros w known ir i v R. exact (ModListProofs.insert_effect w known ir i v (reach_forest w known R) (reach_cache w known R)).
+Qed.
+
+Theorem C04_move_leaves_previous_owner_modlist_append : forall w known ir v, reachable_k w known ->
+  op_okb w known (OModAppend ir v) = true ->
+  exists w', step w (OModAppend ir v) = Ok w' /\
+    kids w' ir = remove_id v (kids w ir) ++ [v] /\
+    (forall x, x <> ir -> kids w' x = remove_id v (kids w x)) /\
+    (forall x, nodes w' x = if x =? v then Some (with_par (getn w v) (Some ir)) else nodes w x) /\
+    par w' v = Some ir.
+Proof.
+  intros w known ir v R. exact (ModListProofs.append_effect w known ir v (reach_forest w known R) (reach_cache w known R)).
+Qed.
+
+(* ---------- derived accessors ---------- *)
+
+(* .ir / .module / .section are, by definition, the walks along the parent attributes ... *)
+Theorem C04_accessors : forall w n,
+  ir_of w n = match kindof w n with
+              | KIR => None
+              | KMod => par w n
+              | KSec | KSym | KProxy => bind_o (par w n) (par w)
+              | KBI => bind_o (par w n) (fun s => bind_o (par w s) (par w))
+              | KCode | KData => bind_o (par w n) (fun b => bind_o (par w b) (fun s => bind_o (par w s) (par w)))
+              end /\
+  module_of w n = match kindof w n with
+                  | KIR | KMod => None
+                  | KSec | KSym | KProxy => par w n
+                  | KBI => bind_o (par w n) (par w)
+                  | KCode | KData => bind_o (par w n) (fun b => bind_o (par w b) (par w))
+                  end /\
+  section_of w n = match kindof w n with
+                   | KBI => par w n
+                   | KCode | KData => bind_o (par w n) (par w)
+                   | _ => None
+                   end.
+Proof. intros w n. repeat split. Qed.
+
+(* ... they land on nodes of the right kind ... *)
+Theorem C04_accessors_kinds : forall w known n x, reachable_k w known ->
+  (ir_of w n = Some x -> kindof w x = KIR) /\
+  (module_of w n = Some x -> kindof w x = KMod) /\
+  (section_of w n = Some x -> kindof w x = KSec).
+Proof.
+  intros w known n x R. pose proof (reach_forest w known R) as HF.
+  exact (conj (ir_of_kind w known n x HF) (conj (SymIxProofs.module_of_mod w known n x HF) (section_of_kind w known n x HF))).
+Qed.
+
+(* ... and what the aggregate iterators enumerate from the top (ir.modules, their sections, ..., blocks: `reach`,
+   four nested levels of `kids`) is exactly the set of nodes whose .ir is that IR *)
+Theorem C04_accessors_agree_with_iteration : forall w known ir n, reachable_k w known -> kindof w ir = KIR ->
+  (In n (reach w ir) <-> n = ir \/ ir_of w n = Some ir).
+Proof. intros w known ir n R. exact (ModListProofs.reach_ir_of w known ir n (reach_forest w known R)). Qed.
+
+(* ---------- frame: nodes not named by an operation keep their state ---------- *)
+
+Theorem C04_frame_discard : forall w known p fk c, reachable_k w known ->
+  op_okb w known (OSet p fk SDiscard [[c]]) = true ->
+  exists w', step w (OSet p fk SDiscard [[c]]) = Ok w' /\
+    kids w' p = remove_id c (kids w p) /\
+    (forall q, q <> p -> kids w' q = kids w q) /\
+    (forall x, x <> c -> nodes w' x = nodes w x) /\
+    (In c (kids w p) -> par w' c = None) /\
+    (~ In c (kids w p) -> w' = w).
+Proof. intros w known p fk c R. exact (op_discard_effect w known p fk c (invall_reachable w known R)). Qed.
+
+Theorem C04_frame_modlist_remove : forall w known ir v, reachable_k w known ->
+  op_okb w known (OModRemove ir v) = true -> In v (kids w ir) ->
+  exists w', step w (OModRemove ir v) = Ok w' /\
+    kids w' ir = remove_id v (kids w ir) /\
+    (forall x, x <> ir -> kids w' x = kids w x) /\
+    (forall x, nodes w' x = if x =? v then Some (with_par (getn w v) None) else nodes w x) /\
+    par w' v = None.
+Proof.
+  intros w known ir v R G Hin.
+  destruct (ModListProofs.remove_effect_in w known ir v (reach_forest w known R) (reach_cache w known R) G Hin)
+    as (i & _ & E & _ & A & B & C & D).
+  exists (ModListProofs.detach w ir v). exact (conj E (conj A (conj B (conj C D)))).
+Qed.
+
+Theorem C04_frame_modlist_delslice : forall w known ir a b, reachable_k w known ->
+  op_okb w known (OModDelSlice ir a b) = true ->
+  let l := kids w ir in
+  let lo := norm_bound a 0 (length l) in
+  let hi := Z.max lo (norm_bound b (Z.of_nat (length l)) (length l)) in
+  let victims := ModListProofs.slice_victims l lo hi in
+  exists w', step w (OModDelSlice ir a b) = Ok w' /\
+    kids w' ir = firstn (Z.to_nat lo) l ++ skipn (Z.to_nat hi) l /\
+    (forall x, x <> ir -> kids w' x = kids w x) /\
+    (forall x, nodes w' x = if mem x victims then Some (with_par (getn w x) None) else nodes w x) /\
+    (forall x, In x victims -> par w' x = None) /\
+    (forall x, x <> ir -> cache w' x = cache w x).
+Proof.
+  intros w known ir a b R. exact (ModListProofs.delslice_effect w known ir a b (reach_forest w known R) (reach_cache w known R)).
+Qed.
+
+Theorem C04_frame_modlist_clear : forall w known ir, reachable_k w known ->
+  op_okb w known (OModClear ir) = true ->
+  exists w', step w (OModClear ir) = Ok w' /\
+    kids w' ir = [] /\
+    (forall x, x <> ir -> kids w' x = kids w x) /\
+    (forall x, nodes w' x = if mem x (kids w ir) then Some (with_par (getn w x) None) else nodes w x) /\
+    (forall x, In x (kids w ir) -> par w' x = None) /\
+    (forall x, x <> ir -> cache w' x = cache w x).
+Proof.
+  intros w known ir R. exact (ModListProofs.clear_effect w known ir (reach_forest w known R) (reach_cache w known R)).
+Qed.
+
+(* construction: a new node is detached, childless, and nothing else changes *)
+Theorem C04_frame_new : forall w known n k u a s f nm p, reachable_k w known ->
+  op_okb w known (ONew n k u a s f nm p) = true ->
+  exists w', step w (ONew n k u a s f nm p) = Ok w' /\
+    par w' n = None /\ kids w' n = [] /\
+    nodes w' n = Some (ModListProofs.new_node k u a s f nm p) /\
+    (forall x, x <> n -> nodes w' x = nodes w x) /\
+    (forall x, kids w' x = kids w x) /\
+    (forall x, x <> n -> cache w' x = cache w x) /\
+    (k = KIR -> cache w' n = [(u, n)]).
+Proof.
+  intros w known n k u a s f nm p R. exact (ModListProofs.new_effect w known n k u a s f nm p (reach_forest w known R)).
+Qed.
+
+(* attribute edits, symbolic-expression edits and lookups change no collection, no parent attribute, no kind,
+   no UUID, no UUID table *)
+Theorem C04_frame_attribute_edits : forall w known o, op_okb w known o = true ->
+  match o with
+  | OAttrAddr _ _ | OAttrSize _ _ | OAttrOff _ _ | OAttrName _ _ | OAttrPay _ _
+  | OSymxSet _ _ _ | OSymxDel _ _ | OSymxPop _ _ | OSymxPopitem _ | OSymxSetdefault _ _ _
+  | OSymxUpdate _ _ | OSymxClear _ | OSymxAssign _ _ | OTouch _ =>
+    (forall x, kids (step' w o) x = kids w x) /\ (forall x, cache (step' w o) x = cache w x) /\
+    (forall x, has (step' w o) x = has w x /\ nk (getn (step' w o) x) = nk (getn w x) /\
+               nuuid (getn (step' w o) x) = nuuid (getn w x) /\ npar (getn (step' w o) x) = npar (getn w x))
+  | _ => True
+  end.
+Proof. exact SetOpsProofs.f1_attr_skel. Qed.
+
+(* non-vacuity: module 2 with section 4 and symbol 5; the section is moved to module 3 from the collection side,
+   the symbol from the attribute side, module 3 is moved from IR 1 to IR 6; the old owners forgot them *)
+Example C04_example :
+  let ops := [ONew 1 KIR 101 None 0 0 0 PNone; ONew 2 KMod 102 None 0 0 0 PNone; ONew 3 KMod 103 None 0 0 0 PNone;
+              ONew 4 KSec 104 None 0 0 0 PNone; ONew 5 KSym 105 None 0 0 7 PNone; ONew 6 KIR 106 None 0 0 0 PNone;
+              OModAppend 1 2; OModAppend 1 3; OSet 2 [KSec] SAdd [[4]]; OSetParent 5 (Some 2);
+              OSet 3 [KSec] SAdd [[4]]; OSetParent 5 (Some 3); OModInsert 6 0 3] in
+  let w := fst (run_guarded w0 [] ops) in
+  all_guarded_ok w0 [] ops = true /\
+  map (kids w) [1; 2; 3; 6] = [[2]; []; [4; 5]; [3]] /\
+  map (par w) [2; 3; 4; 5] = [Some 1; Some 6; Some 3; Some 3] /\
+  map (ir_of w) [4; 5] = [Some 6; Some 6] /\ map (module_of w) [4; 5] = [Some 3; Some 3].
+Proof. vm_compute. repeat split. Qed.
+
+Print Assumptions C04_two_ended.
+Print Assumptions C04_no_duplicates.
+Print Assumptions C04_single_parent.
+Print Assumptions C04_kinds_layered.
+Print Assumptions C04_nodes_known.
+Print Assumptions C04_every_step.
+Print Assumptions C04_move_leaves_previous_owner.
+Print Assumptions C04_move_leaves_previous_owner_parent_attr.
+Print Assumptions C04_move_leaves_previous_owner_modlist_insert.
+Print Assumptions C04_move_leaves_previous_owner_modlist_append.
+Print Assumptions C04_accessors.
+Print Assumptions C04_accessors_kinds.
+Print Assumptions C04_accessors_agree_with_iteration.
+Print Assumptions C04_frame_discard.
+Print Assumptions C04_frame_modlist_remove.
+Print Assumptions C04_frame_modlist_delslice.
+Print Assumptions C04_frame_modlist_clear.
+Print Assumptions C04_frame_new.
+Print Assumptions C04_frame_attribute_edits.
+Print Assumptions C04_example.
